@@ -41,6 +41,9 @@ CHECKS = {
  'C13': dict(cat='exploration', tech=SYMX + ' (symbolic ages and list elements, choice variables for populations)',
    text='Inductive step over the real LightSet: from the directory of an arbitrary population (all 125 over 3 names x 2 groups x 2 locations; thorough adds 4 names) one discover of an arbitrary new population / failed discover / refresh with expiry after a symbolic time advance; the public getters must equal a model (sorted duplicate-free names, each light in exactly its last reported group and location, sorted non-empty member lists, exactly the lights older than the limit expired). Independent explicit histories of 6/12 steps. SortedList first/last/next/prev/has/add/remove on 0..4 symbolic ordered elements with a symbolic probe, and next()-iteration under arbitrary interleaved removals.',
    note='Every invariant-satisfying directory is reachable by one discover from empty, so the step covers histories of any length provided the invariant check is complete for the public getters. time.time in controller.light is stubbed.', ref='4/C13'),
+ 'C12': dict(cat='fault_enumeration', tech='fault enumeration by symbolic choice variables over the real retry/VM/LightSet code (symx), z3 for colour values',
+   text='Six scripts (plain sequence, group/location fan-out, zone, matrix, broadcast, light loop) with symbolic colours run with every fail/succeed vector for the requests to one faulty device (up to 4 consecutive failures per request): the script reaches its end, no request is tried more than 3 times, and the commands reaching all other devices equal the fault-free run on the same values (z3). Twelve unknown-name and capability-mismatch commands between ordinary commands: only the ordinary commands arrive. Discovery with each of plain/multizone/matrix/LAN faulty at every construction-time request: never raises, False leaves the directory unchanged, True yields lights a script can address with every command kind.',
+   note='Not answering = lifxlan raises WorkflowException; LAN broadcasts (fire-and-forget) are not made to fail; scripts avoid get from the faulty device.', ref='4/C12'),
 }
 PENDING = {
 }
